@@ -6,7 +6,7 @@ import importlib
 
 
 def load_contracts():
-    for m in ["der", "util", "ellipticcurve", "ecdsa_", "keys", "rfc6979", "numbertheory", "ecdh", "keys_load", "keys_ser", "groupmode", "history"]:
+    for m in ["der", "util", "ellipticcurve", "ecdsa_", "keys", "rfc6979", "numbertheory", "ecdh", "keys_load", "keys_ser", "groupmode", "history", "concurrency"]:
         importlib.import_module("contracts." + m)
     import spec.der
 
